@@ -21,6 +21,15 @@ impl RngCore for Replay {
 }
 impl CryptoRng for Replay {}
 
+/// drop the object in place and look at every byte of its former representation
+fn wiped<T>(v: T) -> bool {
+    let n = core::mem::size_of::<T>();
+    let mut slot = Box::new(core::mem::ManuallyDrop::new(v));
+    let ptr = (&mut **slot as *mut T).cast::<u8>();
+    unsafe { core::mem::ManuallyDrop::drop(&mut *slot) };
+    (0..n).all(|i| unsafe { core::ptr::read_volatile(ptr.add(i)) } == 0)
+}
+
 fn probes() -> Vec<(Mode, Vec<u8>, Vec<u8>, [u8; 32])> {
     let mut v = Vec::new();
     for (i, mode) in [Mode::Pure, Mode::Sha256, Mode::Sha512, Mode::Shake128].into_iter().enumerate() {
@@ -100,17 +109,16 @@ macro_rules! kat {
                 want.push(1);
             }
             // zeroize on drop in this configuration
+            // every provenance of both key types: generated, deserialised, derived, cloned
             let zero = {
-                let n = core::mem::size_of::<ns::PrivateKey>();
-                let mut slot = Box::new(core::mem::ManuallyDrop::new(sk.clone()));
-                let ptr = (&mut **slot as *mut ns::PrivateKey).cast::<u8>();
-                unsafe { core::mem::ManuallyDrop::drop(&mut *slot) };
-                let a = (0..n).all(|i| unsafe { core::ptr::read_volatile(ptr.add(i)) } == 0);
-                let n2 = core::mem::size_of::<ns::PublicKey>();
-                let mut slot2 = Box::new(core::mem::ManuallyDrop::new(pk.clone()));
-                let ptr2 = (&mut **slot2 as *mut ns::PublicKey).cast::<u8>();
-                unsafe { core::mem::ManuallyDrop::drop(&mut *slot2) };
-                a && (0..n2).all(|i| unsafe { core::ptr::read_volatile(ptr2.add(i)) } == 0)
+                let sk_b = sk.clone().into_bytes();
+                let pk_b = pk.clone().into_bytes();
+                let mut ok = wiped(sk.clone()) && wiped(pk.clone());
+                ok &= wiped(ns::PrivateKey::try_from_bytes(sk_b).unwrap()) && wiped(ns::PublicKey::try_from_bytes(pk_b).unwrap());
+                ok &= wiped(sk.get_public_key());
+                let (pk_g, sk_g) = ns::KG::keygen_from_seed(&[0x5Au8; 32]);
+                ok &= wiped(pk_g) && wiped(sk_g);
+                ok
             };
             let mut line = format!("KAT {} got={} want={} zeroize={}", p.id, refmodel::hex(&refmodel::shake256(&[&got], 32)), refmodel::hex(&refmodel::shake256(&[&want], 32)), if zero { "ok" } else { "residue" });
             #[cfg(feature = "default-rng")]
